@@ -61,6 +61,8 @@ impl TinyLFU {
     /// The first access of the key will result in an entry in the doorkeeper and
     /// subsequent accesses will find the key in the doorkeeper and hence increment the access in the `FrequencyCounter`.
     fn increment_access_for(&mut self, key_hash: KeyHash) {
+        #[cfg(cached_verif)]
+        crate::cache::verif::point("lfu.batch.mid");
         let added = self.door_keeper.add_if_missing(&key_hash);
         if !added {
             self.key_access_frequency.increment(key_hash);
